@@ -210,6 +210,8 @@ fn apply_edit(sh: &mut Shared, op: &Op, log: &mut Vec<String>) -> bool {
         | Op::AddStep { .. }
         | Op::RemoveStep { .. }
         | Op::MoveOut { .. }
+        | Op::SwapOut { .. }
+        | Op::RenameOut { .. }
         | Op::AddOut { .. }
         | Op::SetDefaults { .. }
         | Op::SetPoolDepth { .. } => {
@@ -321,13 +323,49 @@ fn invoke(sh: &Rc<RefCell<Shared>>, spec: &InvokeSpec, root: &Rng, sandbox: &San
     if spec.use_c {
         std::env::set_current_dir(&sandbox.root).unwrap();
     }
+    // Each invocation runs on a fresh OS thread, joined before anything else
+    // happens: a real n2 invocation is a fresh process, so thread-local (per
+    // process) state inside n2 must not survive from one invocation to the
+    // next.  Nothing runs concurrently: the simulator stays single-threaded.
+    struct Sendable<T>(T);
+    unsafe impl<T> Send for Sendable<T> {}
+    let job = Sendable((h, spec.clone(), root.clone(), sandbox.root.clone()));
+    let res = std::thread::Builder::new()
+        .stack_size(8 << 20)
+        .spawn(move || {
+            let job = job;
+            let (h, spec, root, sroot) = job.0;
+            Sendable(invoke_on_this_thread(h, &spec, &root, &sroot))
+        })
+        .expect("spawn invocation thread")
+        .join()
+        .expect("invocation thread died");
+    let (r, out, last_panic) = res.0;
+    sh.borrow_mut().finalize_pending();
+    let o = match r {
+        Ok(Ok(c)) => Outcome::Exit(c, String::new()),
+        Ok(Err(e)) => Outcome::Exit(1, format!("{}", e)),
+        Err(p) => {
+            if p.is::<SimCrash>() {
+                Outcome::Crash
+            } else {
+                Outcome::Panic(last_panic)
+            }
+        }
+    };
+    (o, out)
+}
+
+type N2Result = std::thread::Result<anyhow::Result<i32>>;
+
+fn invoke_on_this_thread(h: SimHost, spec: &InvokeSpec, root: &Rng, sroot: &str) -> (N2Result, Vec<u8>, String) {
     n2::verif::set_interrupted(false);
     LAST_PANIC.with(|p| p.borrow_mut().clear());
     n2::verif::install(Box::new(h));
     IN_N2.with(|c| c.set(true));
     let (r, out) = disk::capture(|| std::panic::catch_unwind(|| n2::run::run()));
     // n2 is gone; commands it left running either finish on their own or die with it
-    let _ = std::env::set_current_dir(format!("{}/w", sandbox.root));
+    let _ = std::env::set_current_dir(format!("{}/w", sroot));
     if spec.faults.orphans_finish || !matches!(r, Err(_)) {
         // (after a normal return the still-running children of an interrupted /
         // budget-stopped build keep running: let a seeded subset finish)
@@ -343,19 +381,7 @@ fn invoke(sh: &Rc<RefCell<Shared>>, spec: &InvokeSpec, root: &Rng, sandbox: &San
     drop(n2::verif::uninstall());
     IN_N2.with(|c| c.set(false));
     n2::verif::set_interrupted(false);
-    sh.borrow_mut().finalize_pending();
-    let o = match r {
-        Ok(Ok(c)) => Outcome::Exit(c, String::new()),
-        Ok(Err(e)) => Outcome::Exit(1, format!("{}", e)),
-        Err(p) => {
-            if p.is::<SimCrash>() {
-                Outcome::Crash
-            } else {
-                Outcome::Panic(LAST_PANIC.with(|p| p.borrow().clone()))
-            }
-        }
-    };
-    (o, out)
+    (r, out, LAST_PANIC.with(|p| p.borrow().clone()))
 }
 
 fn pool_of(p: &Project, sid: usize) -> Option<String> {
@@ -837,7 +863,27 @@ fn check_invocation(
                     }
                 }
             } else {
-                let legit = any_fail || miss || nopool_any || cyc_final || bogus || sh.io_err_fired || sh.sigint_raised;
+                // S9 (known finding): n2 validates the discovered dependencies of a *recorded* run
+                // against the current graph before it knows whether that record is still good.
+                // A record that now belongs to a step with no ordering path to a generated file
+                // it names (the manifest was edited since) aborts the build, in every invocation.
+                let stale_gen_dep = err
+                    .split("used generated file ")
+                    .nth(1)
+                    .and_then(|r| r.split(", but has no dependency path to it").next())
+                    .map(|n| n.to_string())
+                    .filter(|name| {
+                        [&p2, p1].iter().any(|p| {
+                            p.live_steps().any(|(si, _)| {
+                                sh.model.rec_for(p, si).map(|r| r.deps.contains(name)).unwrap_or(false)
+                                    && p.producer(name).map(|pi| pi != si && !p.order_anc(si).contains(&pi)).unwrap_or(false)
+                            })
+                        })
+                    });
+                if let Some(name) = &stale_gen_dep {
+                    v.push(viol("C06", "stale-record-generated-dep", format!("no command failed, yet the build is refused: a log record applies to a step that (in the current manifest) has no ordering path to {:?}, a generated file the record lists as discovered dependency: {}", name, err)));
+                }
+                let legit = any_fail || miss || nopool_any || cyc_final || bogus || sh.io_err_fired || sh.sigint_raised || stale_gen_dep.is_some();
                 // targets must be resolved against the regenerated manifest: rejecting a name
                 // before a dirty generator even ran is C17's business
                 if err.starts_with("unknown path requested") && !injected && !spec.restat && started_all.is_empty() {
@@ -847,6 +893,18 @@ fn check_invocation(
                         .filter(|&si| !p1.steps[si].phony && sh.model.judgeable(p1, si) && sh.model.dirty(p1, si).is_some())
                         .collect();
                     if !dirty_gen.is_empty() && !p1.has_cycle_in(&w1_p1) {
+                        // ... and a name the regenerated manifest declares is a valid request (C18)
+                        let gv = disk::read_str("gen.in")
+                            .and_then(|c| c.rsplit("#variant=").next().and_then(|x| x.trim().parse::<usize>().ok()))
+                            .unwrap_or(0)
+                            .min(sh.model.variants.len().saturating_sub(1));
+                        if let Some(np) = sh.model.variants.get(gv) {
+                            let mut m = np.mentioned();
+                            m.insert(np.manifest.clone());
+                            if ctargets.iter().all(|t| m.contains(t)) && dirty_gen.iter().all(|&si| p1.steps[si].generator) && !any_fail {
+                                v.push(viol("C18", "valid-target-rejected", format!("{:?} was rejected although the manifest, once regenerated and reloaded, declares every requested name", ctargets)));
+                            }
+                        }
                         v.push(viol("C17", "rejected-before-regen", format!("{:?} was rejected before the out-of-date manifest (s{} needs to run) was regenerated and reloaded", unknown, p1.steps[dirty_gen[0]].id)));
                     }
                 }
@@ -996,7 +1054,7 @@ fn check_invocation(
     }
 
     // ---- the same disagreement seen in a context another property speaks about
-    let structural = ["respell_manifest", "add_step", "remove_step", "move_output", "add_output", "pool_depth", "set_defaults"];
+    let structural = ["respell_manifest", "add_step", "remove_step", "move_output", "add_output", "swap_outputs", "rename_output", "pool_depth", "set_defaults"];
     let only_structural = !sh.model.edits_since_invoke.is_empty() && sh.model.edits_since_invoke.iter().all(|e| structural.contains(e));
     let near_tear = sh.model.inv_since_tear.map(|n| n <= 1).unwrap_or(false);
     let mut extra = Vec::new();
@@ -1038,6 +1096,9 @@ fn check_invocation(
         }
         if (dirtyish || closureish) && reload_at.is_some() {
             extra.push(viol("C17", &format!("after-reload-{}", x.code), format!("in an invocation that regenerated and reloaded the manifest: {}", x.detail)));
+        }
+        if x.prop == "C18" && x.code == "closure-step-not-considered" {
+            extra.push(viol("C06", "wanted-step-undecided", format!("exit status 0, but no decision was made for a wanted step: {}", x.detail)));
         }
         if x.prop == "C05" && x.code == "ancestor-failed" {
             extra.push(viol("C01", "ancestor-failed", x.detail.clone()));
@@ -1249,6 +1310,8 @@ pub fn op_name(op: &Op) -> &'static str {
         Op::RemoveStep { .. } => "remove_step",
         Op::MoveOut { .. } => "move_output",
         Op::AddOut { .. } => "add_output",
+        Op::SwapOut { .. } => "swap_outputs",
+        Op::RenameOut { .. } => "rename_output",
         Op::SetPoolDepth { .. } => "pool_depth",
         Op::SetDefaults { .. } => "set_defaults",
         Op::DeleteDb => "delete_log",
